@@ -6,5 +6,5 @@ CONSTANTS
   Letters = {2, 3, 7, 9, 12, 13}
   HeaderIds = {1, 2, 3, 4, 5, 6, 7, 8, 9, 10, 11, 12, 13, 14}
   Defects = {"valcut", "hdrcut1", "hdrcut3"}
-INVARIANTS AcceptIffWellFormed ErrorIsACause RejectedHasCause CausesAgree ExposureInv EmitCase
+INVARIANTS AcceptIffWellFormed ErrorIsACause RejectedHasCause CausesAgree TruncationDescribes ExposureInv EmitCase
 CHECK_DEADLOCK FALSE
